@@ -47,6 +47,11 @@ def accelOfDv (dv : V3) (duration : R) : V3 := V3.divS dv duration
 /-- `KeplerianImpulsiveMan.dv`: `to_tnw(orb).T @ [dv_t, 0, dv_w]` -/
 def kepManDv (pos vel : V3) (dv_t dv_w : R) : V3 := (toTnw pos vel).tMulVec ⟨dv_t, 0, dv_w⟩
 
+/-- `KeplerianContinuousMan.accel`: `self._accel = dkep2dv(orb, …) / self.duration.total_seconds()`, then the projection of
+`ContinuousMan.accel` with the forced frame TNW -/
+def kepContAccel (pos vel : V3) (mu a i v da di dOmega duration : R) : V3 :=
+  manProject Tag.tnw pos vel (accelOfDv ⟨dkepDvT mu a i v da di dOmega, 0, dkepDvW mu a i v da di dOmega⟩ duration)
+
 /-- state = (position, velocity) -/
 structure St where
   p : V3
